@@ -1635,6 +1635,13 @@ int symtab_add_qualifier_from_qualifier(symtab * tab, qualifier * value,
 int symtab_add_func_from_func(symtab * tab, func * func_value,
                               unsigned int syn_level, int * result)
 {
+    if (func_value->decl->id == NULL)
+    {
+        *result = TYPECHECK_FAIL;
+        print_error_msg(func_value->line_no, "a function declared here needs a name");
+        return 0;
+    }
+
     symtab_entry * entry = symtab_lookup(tab, func_value->decl->id,
                                          SYMTAB_LOOKUP_BLOCK);
     if (entry == NULL)
